@@ -3,7 +3,9 @@ import ShuttleModel.Prim.Chan
 import ShuttleModel.Prim.Condvar
 import ShuttleModel.Prim.Barrier
 import ShuttleModel.Prim.Once
+import ShuttleModel.Prim.Future
 import ShuttleModel.Wrap.PlLocks
+import ShuttleModel.Wrap.Tokio
 /-
   Layer L — the program IR (shared verbatim with the Rust harness, DESIGN.md Appendix A) and its
   interpretation as a kernel `Program`.  Every case of `execOp` mirrors, call for call, what the
@@ -118,6 +120,8 @@ inductive Obj where
   /-- parking_lot replacements (Wrap/PlLocks.lean) -/
   | plmutex (m : PlMutexState)
   | plrwlock (l : PlRwLockState)
+  /-- a tokio-wrapper object (Wrap/Tokio.lean) -/
+  | tokio (t : Tokio.TObj)
   | bad
 deriving Repr, Inhabited
 
@@ -160,9 +164,13 @@ structure Heap where
   handles : List Bool := []
   locals : List Local := []
   scopes : List ScopeState := []
+  /-- the async layer: join handles, waker slots, the table of `Acquire` futures -/
+  fut : FutHeap := {}
 deriving Repr, Inhabited
 
 namespace Heap
+
+def futL : Lens Heap FutHeap := { get := (·.fut), set := fun f h => { h with fut := f } }
 
 def objL (i : Nat) : Lens Heap Obj :=
   { get := fun h => (h.objs[i]?).getD .bad, set := fun o h => { h with objs := h.objs.set i o } }
@@ -191,6 +199,10 @@ def plmutexL (i : Nat) : Lens Heap PlMutexState :=
   (objL i).comp { get := fun o => match o with | .plmutex a => a | _ => {}, set := fun a _ => .plmutex a }
 def plrwlockL (i : Nat) : Lens Heap PlRwLockState :=
   (objL i).comp { get := fun o => match o with | .plrwlock a => a | _ => {}, set := fun a _ => .plrwlock a }
+
+/-- lens to the tokio object at index `i` -/
+def tokioL (i : Nat) : Lens Heap Tokio.TObj :=
+  (objL i).comp { get := fun o => match o with | .tokio t => t | _ => default, set := fun t _ => .tokio t }
 
 def localL (k : Nat) : Lens Heap Local :=
   { get := fun h => (h.locals[k]?).getD {}, set := fun l h => { h with locals := h.locals.set k l } }
@@ -229,7 +241,7 @@ def mkObj (d : ObjDecl) : Obj :=
   | "lazy" | "wlazy" => .lazy {}
   | "plmutex" => .plmutex { value := a0 }
   | "plrwlock" => .plrwlock { value := a0 }
-  | _ => .bad
+  | k => if Tokio.isKind k then .tokio (Tokio.mkObj k d.args) else .bad
 
 def IR.objIndex (ir : IR) (name : String) : Nat := (ir.objs.findIdx? (·.name == name)).getD ir.objs.length
 
@@ -243,6 +255,7 @@ def IR.initHeap (ir : IR) : Heap :=
   { objs := ir.objs.map mkObj
     spawned := (some 0) :: List.replicate (n - 1) none
     handles := List.replicate n false
+    fut := FutHeap.init n ir.objs.length 8
     -- task 0 starts with one `Sender` and the `Receiver` of every channel
     locals := ({ tx := cs, rx := cs } : Local) :: List.replicate (n - 1) {} }
 
@@ -313,6 +326,18 @@ def scopeClose (sid : Nat) : P Unit := do
   let h ← K.getU
   let sc := (h.scopes[sid]?).getD {}
   if sc.running != 0 then do K.block false; K.switch else pure ()
+
+def isAsyncOp (n : String) : Bool := n == "fjoin" || n == "fyield" || n == "pend" || n == "acq_await"
+
+/-- the leaf future of an async op, from its tokens -/
+def parseAOp (ir : IR) : List String → AOp
+  | "fjoin" :: b :: _ => .join ((b.toNat?).getD 0)
+  | "fyield" :: _ => .yieldNow
+  | "pend" :: w :: _ => .pend (ir.objIndex w)
+  | "acq_await" :: h :: _ => .acqAwait ((h.toNat?).getD 0)
+  | "block_on" :: rest => .blockOn (parseAOp ir rest)
+  | n :: _ => .bad n
+  | [] => .bad ""
 
 /-- the `pl_*` operations (harness/src/pl.rs `exec`): parking_lot `Mutex` / `RwLock` through the
 generic `lock_api` guards; conversions replace the guard in place -/
@@ -632,9 +657,42 @@ def execOp (ir : IR) (k : Nat) (pc : Nat) (op : Op) : P String := do
       K.setL (Heap.localL k) { l with scopes := rest }
       scopeClose sid
       pure "ok"
+  -- the async layer (Prim/Future.lean); ops usable from threads and from future bodies
+  | "fspawn" =>
+    let b := op.num 0
+    if !((ir.tasks[b]?).getD {}).future then K.panic s!"vh: fspawn of a thread body {b}" else do
+    let j ← K.getL (Fut.joinL Heap.futL b)
+    if j.tid.isSome then pure "already" else do
+      transferHandles ir k pc b
+      -- `future::spawn` → `ExecutionState::spawn_future`: `thread::switch()`, then the task is created
+      K.switch
+      let tid ← K.spawn true b
+      Fut.register Heap.futL b tid
+      pure "ok"
+  | "fabort" => Fut.abort Heap.futL (op.num 0)
+  | "fdetach" => Fut.detach Heap.futL (op.num 0)
+  | "fis_finished" => Fut.isFinished Heap.futL (op.num 0)
+  | "wake" => do Fut.signal Heap.futL oi; pure "ok"
+  | "wake_only" => do Fut.wakeOnly Heap.futL oi; pure "ok"
+  | "acq_new" => Fut.acqNew Heap.futL Heap.semL (op.num 0) (ir.objIndex (op.arg 1)) (op.num 2)
+  | "acq_poll" => Fut.acqPoll Heap.futL Heap.semL (op.num 0)
+  | "acq_drop" => Fut.acqDrop Heap.futL Heap.semL (op.num 0)
+  | "block_on" => Fut.blockOn Heap.futL Heap.semL (parseAOp ir op.args)
+  | "fjoin_block" => Fut.blockOn Heap.futL Heap.semL (.join (op.num 0))
+  | "fjoin" | "fyield" | "pend" | "acq_await" =>
+    -- awaited ops of a future body are run by `pollOps`; a thread has nothing to await with
+    K.panic s!"vh: async op {op.name} outside a future (task {k})"
   -- wrapper crates (Wrap/PlLocks.lean)
   | "wrand" => do let v ← WRand.op (op.arg 0); pure s!"v:{v % 4}"
-  | other => if other.startsWith "pl_" then execPl k oi other else K.panic s!"model: unknown op {other}"
+  | other =>
+    if other.startsWith "pl_" then execPl k oi other
+    else if Tokio.isOp other then
+      Tokio.exec (fun n => match ir.objs.findIdx? (·.name == n) with
+        | some i => (match (ir.objs[i]?).map (·.kind) with
+          | some kd => if Tokio.isKind kd then some (Heap.tokioL i) else none
+          | none => none)
+        | none => none) k other op.args
+    else K.panic s!"model: unknown op {other}"
 
 def dropGuard (g : Nat × GuardKind) : P Unit :=
   match g.2 with
@@ -813,7 +871,8 @@ harness's `TaskSt` in declaration order — `guards` (front to back), then the c
 whose `Drop` impls return at once because `should_stop()` holds while a panic is in flight -/
 def IR.unwind (ir : IR) (tid : Nat) : P Unit := do
   let h ← K.getU
-  match h.spawned.findIdx? (· == some tid) with
+  -- thread bodies are in `spawned`, future bodies in the join table
+  match (h.spawned.findIdx? (· == some tid)).orElse (fun _ => h.fut.joins.findIdx? (·.tid == some tid)) with
   | none => pure ()
   | some k =>
     let l ← K.getL (Heap.localL k)
@@ -821,7 +880,120 @@ def IR.unwind (ir : IR) (tid : Nat) : P Unit := do
     dropInner k (l.inner.length + 1)
     dropGuardsFront k (l.guards.length + 1)
 
+/-! ### Future bodies: the async block the harness hands to `future::spawn` -/
+
+/-- resumable state of the async block of a future body: the op it is at and the state of the
+leaf future it awaits there -/
+structure FutSt where
+  pc : Nat := 0
+  stage : Stage := .init
+deriving Repr, Inhabited
+
+def logOp (ir : IR) (k pc : Nat) (res : String) : P Unit := do
+  let me ← K.me
+  K.emit s!"O {me} {k} {pc} {res}"
+  if ir.clocks then do
+    let c ← K.clock
+    K.emit s!"C {me} {pc} {clockStr c}"
+  else pure ()
+  let l ← K.getL (Heap.localL k)
+  K.setL (Heap.localL k) { l with last := res }
+
+/-- one `poll` of the async block of body `k` resumed in state `s`: sync ops run to completion
+(they block the whole task), an async op polls its leaf future and returns `Pending` (`some`)
+when the leaf does; `none` = the block ran to its end (`Ready`) -/
+def pollOps (ir : IR) (k : Nat) (ops : List Op) : Nat → FutSt → P (Option FutSt)
+  | 0, _ => K.panic "model: future body fuel exhausted"
+  | fuel + 1, s =>
+    match ops[s.pc]? with
+    | none => do
+      let l ← K.getL (Heap.localL k)
+      dropGuards k (l.guards.length + 1)
+      dropHandles k ir.chans
+      let me ← K.me
+      K.emit s!"O {me} {k} end"
+      pure none
+    | some op =>
+      if op.name == "if" then do
+        let l ← K.getL (Heap.localL k)
+        if l.last == op.arg 0 then pollOps ir k ops fuel { pc := s.pc + op.num 2 + 1 }
+        else pollOps ir k ops fuel { pc := s.pc + 1 }
+      else if isAsyncOp op.name then do
+        let r ← Fut.pollLeaf Heap.futL Heap.semL (parseAOp ir (op.name :: op.args)) s.stage
+        match r with
+        | .ready res => do
+          logOp ir k s.pc res
+          pollOps ir k ops fuel { pc := s.pc + 1 }
+        | .pending st => pure (some { s with stage := st })
+      else do
+        let res ← execOp ir k s.pc op
+        logOp ir k s.pc res
+        pollOps ir k ops fuel { pc := s.pc + 1 }
+
+/-- the fields `tx`, then `rx` of the harness's task state, each front to back -/
+def dropHandlesFields (k : Nat) (chans : List (String × Nat)) : P Unit := do
+  K.forM_ chans fun (_, ci) => do
+    let l ← K.getL (Heap.localL k)
+    if l.tx.contains ci then do
+      K.setL (Heap.localL k) { l with tx := l.tx.erase ci }
+      Chan.dropSender (Heap.chanL ci)
+    else pure ()
+  K.forM_ chans fun (_, ci) => do
+    let l ← K.getL (Heap.localL k)
+    if l.rx.contains ci then do
+      K.setL (Heap.localL k) { l with rx := l.rx.erase ci }
+      Chan.dropReceiver (Heap.chanL ci)
+    else pure ()
+
+/-- dropping the (cancelled) async block suspended in state `s`: the awaited leaf future, then the
+drop guard (which logs), then the harness's task state in field order -/
+def dropFuture (ir : IR) (k : Nat) (ops : List Op) (s : FutSt) : P Unit := do
+  match ops[s.pc]? with
+  | some op =>
+    if isAsyncOp op.name then Fut.dropLeaf Heap.futL Heap.semL (parseAOp ir (op.name :: op.args)) s.stage
+    else pure ()
+  | none => pure ()
+  let me ← K.me
+  K.emit s!"O {me} {k} dropped"
+  let l ← K.getL (Heap.localL k)
+  dropGuardsFront k (l.guards.length + 1)
+  dropHandlesFields k ir.chans
+
+/-- `Task::from_future(Wrapper::new(async { … }))`: no `thread_fn` — no pre-exit switch and no
+waiter to unblock; the thread-local destructors are run by `Wrapper::finish` -/
+def IR.futureBody (ir : IR) (k : Nat) : P Unit :=
+  let ops := ((ir.tasks[k]?).getD {}).ops
+  do
+    Fut.markStarted Heap.futL k
+    Fut.taskLoop Heap.futL k (pollOps ir k ops (2 * ops.length + 4)) (dropFuture ir k ops)
+      (tlsPopLoop ir k (ir.objs.length + 1)) Fut.loopFuel {}
+
+/-- body `n` of the program: future bodies are what `fspawn` creates -/
+def IR.bodiesA (ir : IR) (n : Nat) : P Unit :=
+  if n < ir.tasks.length && ((ir.tasks[n]?).getD {}).future then ir.futureBody n else ir.bodies n
+
+/-- `ExecutionState::cleanup()` after an execution that ended `Finished`: the tasks are dropped in
+id order.  A detached future task that was never polled (continuation still `Initialized`) is
+dropped as a plain closure, outside any unwinding; it still owns what `fspawn` moved into its
+async block, and dropping a channel endpoint there calls `ExecutionState::should_stop()`, whose
+`assert_ne!(current_task, Finished)` fails (execution.rs:760) — the execution that had ended
+normally is reported as a panic. (A future that was polled at least once is force-unwound:
+`std::thread::panicking()` holds and `should_stop()` returns before the assertion.) -/
+def IR.finalOutcome (_ir : IR) (o : Outcome) (k : Kernel) (h : Heap) : Outcome :=
+  match o with
+  | .ok =>
+    let bad := k.indexed.find? fun p =>
+      !p.2.finished && (match h.fut.joins.zipIdx.find? (·.1.tid == some p.1) with
+        | some (j, b) =>
+          let l := (h.locals[b]?).getD {}
+          !j.started && !(l.tx.isEmpty && l.rx.isEmpty)
+        | none => false)
+    match bad with
+    | some p => .panic p.1 "assertion `left != right` failed"
+    | none => .ok
+  | o => o
+
 def IR.program (ir : IR) : Program :=
-  { U := Heap, init := ir.initHeap, bodies := ir.bodies, unwind := ir.unwind }
+  { U := Heap, init := ir.initHeap, bodies := ir.bodiesA, unwind := ir.unwind }
 
 end ShuttleModel
